@@ -7,6 +7,7 @@ import (
 	"fmt"
 	"os"
 	"path/filepath"
+	"sort"
 	"strconv"
 	"time"
 
@@ -36,6 +37,20 @@ func main() {
 		for _, id := range engine.IDs() {
 			fmt.Println(id)
 		}
+	case "size":
+		// jdmc size Cxx [tier]: cases per leg, estimated from shard 0 of 16
+		ck := engine.Get(os.Args[2])
+		tier := "thorough"
+		if len(os.Args) > 3 {
+			tier = os.Args[3]
+		}
+		counts := engine.CountCases(ck, tier, 0, 16)
+		var total uint64
+		for _, leg := range sortedKeys(counts) {
+			fmt.Printf("%12d  %s\n", counts[leg]*16, leg)
+			total += counts[leg] * 16
+		}
+		fmt.Printf("%12d  TOTAL (shard 0 x 16)\n", total)
 	case "selftest":
 		if err := selftest.Run(); err != nil {
 			fmt.Fprintln(os.Stderr, "selftest FAILED:", err)
@@ -146,4 +161,13 @@ func isFlagSet(fs *flag.FlagSet, name string) bool {
 		}
 	})
 	return set
+}
+
+func sortedKeys(m map[string]uint64) []string {
+	var ks []string
+	for k := range m {
+		ks = append(ks, k)
+	}
+	sort.Strings(ks)
+	return ks
 }
